@@ -120,8 +120,19 @@ class Runner:
         self.base_items = list(d.items())
         return d
 
-    def conv(self, data):
+    def conv(self, data, zeros=None):
         k = self.kind
+        if zeros and k in ("spmatrix", "counts"):
+            # explicitly stored zeros at the given (row, column) positions
+            A = np.asarray(data, dtype=np.float64)
+            r, cidx = np.nonzero(A)
+            zr = np.asarray([z[0] for z in zeros], dtype=r.dtype)
+            zc = np.asarray([z[1] for z in zeros], dtype=cidx.dtype)
+            M = sp.coo_matrix((np.concatenate([A[r, cidx], np.zeros(len(zeros))]),
+                               (np.concatenate([r, zr]), np.concatenate([cidx, zc]))), shape=A.shape).tocsr()
+            M.sort_indices()
+            assert M.nnz == len(r) + len(zeros)
+            return M
         if k in ("tokens", "strings"):
             return list(data)
         if k == "numlists":
@@ -155,7 +166,7 @@ class Runner:
             m.fit(X, np.asarray(c["y"]))
         else:
             m.fit(X)
-        self.items = self.conv(c["items"])
+        self.items = self.conv(c["items"], c.get("explicit_zeros"))
         if self.kind in ("lil", "generator"):
             self.item_vectors = [np.asarray(v, dtype=np.float64) for v in c["item_vectors"]]
         self.lot_dim = int(m.reference_vectors_.size) if hasattr(m, "reference_vectors_") else None
@@ -177,6 +188,10 @@ class Runner:
             m.sinkhorn_chunk_size = 32
         if k in ("spmatrix", "counts"):
             X = self.items[np.asarray(idx, dtype=np.int64)]
+            if self.c.get("explicit_zeros"):
+                # the sub-batch holds the same stored entries (explicit zeros included) as the rows of the batch
+                want = sum(int(self.items.indptr[i + 1] - self.items.indptr[i]) for i in idx)
+                assert X.nnz == want, "row selection dropped stored entries"
         else:
             X = [self.items[i] for i in idx]
         if k in ("lil", "generator"):
